@@ -311,6 +311,8 @@ pub fn spec() -> PropSpec {
                     3 => proptest::collection::vec(any::<u8>(), 0..12),
                     2 => (gen::pick(rm::UC_EVENTS), proptest::collection::vec(any::<u8>(), 0..10)).prop_map(|(e, mut b)| { let mut v = e.to_be_bytes().to_vec(); v.append(&mut b); v }),
                     1 => proptest::collection::vec(any::<u8>(), 12..200),
+                    3 => (4usize..7).prop_flat_map(|n| proptest::collection::vec(any::<u8>(), n)),
+                    2 => (gen::pick(rm::UC_EVENTS), proptest::collection::vec(any::<u8>(), 8)).prop_map(|(e, b)| { let n = rm::uc_field_count(e).unwrap(); let mut v = e.to_be_bytes().to_vec(); v.extend_from_slice(&b[..4 * n]); v }),
                 ];
                 (prop_oneof![1 => any::<u8>(), 2 => gen::pick(rm::KNOWN_TYPES)], body).prop_map(|(type_id, body)| RawCase { type_id, body }).boxed()
             }, 30_000, 1_000_000, eval_raw),
